@@ -36,7 +36,7 @@ rt|all)
   done
   run $CC -std=gnu11 -O1 -g -fno-builtin $DEFS $INC $WARN -c $V/harness/rt_core.c -o $OUT/rt_core.o
   waitall
-  $CC -g -o $OUT/runner_rt $OUT/rt_core.o $OUT/rt_ops.o $OUT/rt_table.o $OUT/rt_h_*.o $OUT/lib/*.o $OUT/vsched.o -ldl -lm
+  $CC -g -no-pie -o $OUT/runner_rt $OUT/rt_core.o $OUT/rt_ops.o $OUT/rt_table.o $OUT/rt_h_*.o $OUT/lib/*.o $OUT/vsched.o -ldl -lm
   ;;&
 esac
 echo "build ok: $T"
